@@ -70,7 +70,7 @@ CHECKS['C17'] = dict(
           'seeded per run.  non-trivial = at least 3 ops executed AND (realloc moved a live block OR a code write window was opened); '
           'distinct = distinct hash of (knobs, program, ops) among those.'),
     probes=['realloc_moved_live_block', 'module_via_c2mir', 'module_via_binary_read', 'gen_lazy_on_first_call', 'gen_repeated',
-            'link_with_3_pending_modules', 'ext_reentered_mir', 'interp_after_generation', 'link_iface_none', 'contexts_finished'],
+            'link_with_3_pending_modules', 'ext_reentered_mir', 'ext_many_args_called', 'interp_after_generation', 'link_iface_none', 'contexts_finished'],
     components_real=_LC_REAL, components_stubbed=_LC_STUB,
     assumptions=['histories are error-free by construction (allocation failure is never injected: the statement excludes it)',
                  'programs come from one template family (prog/dsl.hpp); a crash of the generator that also occurs for the plain history scan/load/link(eager) of the same program is a program-level optimizer defect and is counted as a side finding, not a verdict',
